@@ -362,7 +362,7 @@ func checkC11cut(p *Parser, R0, r *CallResult, faults []kernel.Fault, recoverOn 
 	return "", "", nil
 }
 
-var faultKinds = []string{"err", "panic-err", "panic-str", "panic-int", "panic-struct", "panic-stringer", "panic-badstringer", "errnested", "errdup"}
+var faultKinds = []string{"err", "panic-err", "panic-str", "panic-int", "panic-struct", "panic-stringer", "panic-badstringer", "errnested", "errdup", "errlate"}
 
 // campaignC11 records the fault-free execution and then injects faults at the
 // code-block invocations of that execution.
@@ -475,6 +475,8 @@ func campaignC11(p *Parser, req *Request, resp *Response) {
 						kind = "errdup"
 					case c == 8:
 						kind = "errnested"
+					case c == 7:
+						kind = "errlate"
 					case c == 9:
 						kind = faultKinds[1+simrt.Choose(6)]
 					}
@@ -534,6 +536,57 @@ func campaignC11(p *Parser, req *Request, resp *Response) {
 			}
 			if len(r.Errs) > 0 && !r.ValueNil {
 				resp.stat("value_and_errors_together", 1)
+			}
+		}
+	}
+	// a faulted call right after another call of the same process, the pools
+	// and whatever else the package keeps as that call left them; the earlier
+	// call had a list of default options in front of its own. The faulted call
+	// must return what it returns alone.
+	if len(resp.Violations) == 0 && len(sets) > 0 {
+		var picks [][]kernel.Fault
+		for _, set := range sets {
+			if len(picks) < 2 && len(set) > 0 && isPanicKind(set[len(set)-1].Kind) {
+				picks = append(picks, set)
+			}
+		}
+		if len(picks) < 2 {
+			picks = append(picks, sets[len(sets)/2])
+		}
+		for _, set := range picks {
+			c := call
+			c.Plan.Faults = set
+			alone := p.Solo(&c, req.Pool, req.StepCap)
+			pre := call
+			pre.Opts.Overridden = true
+			pre.Opts.Recover = nil
+			if len(set)%2 == 0 {
+				pre.Plan.Faults = set
+			}
+			first := p.Solo(&pre, req.Pool, req.StepCap)
+			after := p.After(&c, req.StepCap)
+			resp.Runs += 3
+			if alone.Aborted || alone.Overflow || first.Aborted || first.Overflow || after.Aborted || after.Overflow {
+				continue
+			}
+			resp.stat("faulted_runs_right_after_another_call", 1)
+			bad := ""
+			switch {
+			case after.Escaped != alone.Escaped:
+				bad = fmt.Sprintf("a panic reached the caller: %q instead of %q", after.Escaped, alone.Escaped)
+			case after.Value != alone.Value:
+				bad = "returned " + after.Value + " instead of " + alone.Value
+			default:
+				if ok, _ := sameStrings(errMsgs(after), errMsgs(alone)); !ok {
+					bad = fmt.Sprintf("reported %q instead of %q", errMsgsShort(after), errMsgsShort(alone))
+				} else if ok, at := sameStrings(historyKeys(after), historyKeys(alone)); !ok {
+					bad = fmt.Sprintf("ran other blocks (history differs at event %d)", at)
+				}
+			}
+			if bad != "" {
+				resp.Violations = append(resp.Violations, Violation{Class: "differs-after-another-call", Msg: "the faulted call made right after another call of the same process (whose option list began with defaults that its own options replaced) " + bad, FaultSets: [][]kernel.Fault{set},
+					Attrs: map[string]string{"class": "differs-after-another-call", "recover": fmt.Sprint(recoverOn), "memoize": fmt.Sprint(call.Opts.Memoize), "optimized": fmt.Sprint(!p.Has["Memoize"])}})
+				break
 			}
 		}
 	}
